@@ -21,6 +21,14 @@ impl HostFilter for RejectAll {
     }
 }
 
+/// Rejects the peers of one datacenter.
+struct RejectDc(String);
+impl HostFilter for RejectDc {
+    fn accept(&self, peer: &Peer) -> bool {
+        peer.datacenter.as_deref() != Some(self.0.as_str())
+    }
+}
+
 /// Rejects the peers whose rack is "r9" (so that a rack change flips the verdict).
 struct RejectRack9;
 impl HostFilter for RejectRack9 {
@@ -516,8 +524,21 @@ impl ProducerRig {
         refresh_interval: Duration,
         request_timeout: Duration,
     ) -> Result<ProducerRig, String> {
+        Self::spawn_filtered(contact_point, refresh_interval, request_timeout, None).await
+    }
+
+    /// Like `spawn`, with a host filter rejecting exactly the peers whose datacenter is
+    /// `rejected_dc` (so that the establisher's known peers, candidate order, host-filter verdict
+    /// on the node hosting the control connection and rejected-metadata fallback are all in play).
+    pub async fn spawn_filtered(
+        contact_point: SocketAddr,
+        refresh_interval: Duration,
+        request_timeout: Duration,
+        rejected_dc: Option<String>,
+    ) -> Result<ProducerRig, String> {
         let (refresh_sender, refresh_receiver) = tokio::sync::mpsc::channel(32);
-        let host_filter: Option<Arc<dyn HostFilter>> = None;
+        let host_filter: Option<Arc<dyn HostFilter>> =
+            rejected_dc.map(|dc| Arc::new(RejectDc(dc)) as Arc<dyn HostFilter>);
         let cc_establisher = ControlConnectionEstablisher::new(
             vec![KnownNode::Address(contact_point)],
             None,
